@@ -17,7 +17,8 @@ def run(tier, seed):
                           nwalks=300 if quick else 3000, seed=seed, clauses=CLAUSES,
                           props=["PropC04"],
                           extra_B=[{"Scenario": '"c04b"', "MaxDepth": 3 if quick else 4},
-                                   {"Scenario": '"c04c"', "MaxDepth": 3 if quick else 4}])
+                                   {"Scenario": '"c04c"', "MaxDepth": 3 if quick else 4},
+                                   {"Scenario": '"c04d"', "MaxDepth": 1}])
 
 
 def replay(path):
